@@ -1,10 +1,12 @@
 //! Harness for the tracing-appender properties: C15 C16.
 mod c15;
+mod c16;
 
 fn main() {
     let args = mc::parse_args();
     let code = match args.property.as_str() {
         "C15" => c15::run(&args),
+        "C16" => c16::run(&args),
         p => {
             eprintln!("h_app: unknown property {}", p);
             2
